@@ -148,8 +148,14 @@ def small_methods():
         raise TranslateError('Pool.drop changed: %r' % t)
     dis, _, l3 = load_function('pony/orm/dbapiprovider.py', 'Pool.disconnect')
     t = [ast.unparse(s).replace('\n', ' ') for s in _body(dis)]
-    if [x.replace('    ', '') for x in t] != ['con = pool.con', 'pool.con = None', 'if con is not None: con.close()']:
-        raise TranslateError('Pool.disconnect changed: %r' % t)
+    norm = [' '.join(x.split()) for x in t]
+    if norm == ['con = pool.con', 'pool.con = None', 'if con is not None: con.close()']:
+        facts['disconnect_checks_pid'] = False
+    elif norm == ['con = pool.con', 'pool.con = None',
+                  'if con is not None: if pool.pid != os.getpid(): pool.forked_connections.append((con, pool.pid)) else: con.close()']:
+        facts['disconnect_checks_pid'] = True       # an inherited connection is parked, not closed
+    else:
+        raise TranslateError('Pool.disconnect changed: %r' % norm)
     init, _, l4 = load_function('pony/orm/dbapiprovider.py', 'Pool.__init__')
     t = [ast.unparse(s) for s in _body(init)]
     if 'pool.con = pool.pid = None' not in t: raise TranslateError('Pool.__init__ no longer sets con = pid = None: %r' % t)
@@ -174,7 +180,9 @@ def generate():
            'From Coq Require Import ZArith List Bool.', 'Import ListNotations.', 'Require Import PonyV.Model.C36Base.', 'Open Scope Z_scope.', '',
            translate_pool_connect(), translate_ora_connect(),
            '(* SQLitePool.__init__ leaves pool.pid unset (attribute missing) until the first connect *)',
-           'Definition sqlite_init_sets_pid : bool := %s.' % ('true' if facts['sqlite_init_sets_pid'] else 'false'), '']
+           'Definition sqlite_init_sets_pid : bool := %s.' % ('true' if facts['sqlite_init_sets_pid'] else 'false'),
+           '(* Pool.disconnect: does it compare pool.pid with os.getpid() before closing pool.con (parking an inherited connection instead)? *)',
+           'Definition disconnect_checks_pid : bool := %s.' % ('true' if facts['disconnect_checks_pid'] else 'false'), '']
     return '\n'.join(out)
 
 
